@@ -544,6 +544,9 @@ static void mon_c14(ctx *c, int final, const vd_result *res)
 /* ============================= driver ============================= */
 /* C14: words with hostile spellings, added through decoder_add_word and used in an alignment text */
 static const char *hostile_words[] = { "he\"llo", "back\\slash", "ctl\x01char", "caf\xc3\xa9", "bad\xff\xfeutf", "quote\"", "\"", "\\", "a\\\"b", "tab\x0bv",
+    /* every shape of ill-formed UTF-8: overlong 2-, 3- and 4-byte forms, lead bytes above F4, surrogates, beyond U+10FFFF, stray and missing continuation bytes */
+    "for\xc0\xafward", "ten\xc1\xbf", "m\xf5\x80\x80\x80s", "x\xf7\xbf\xbf\xbf", "o\xe0\x80\x80l", "o\xf0\x80\x80\x80l", "s\xed\xa0\x80g", "b\xf4\x90\x80\x80y", "st\x80ray", "cut\xe2\x82", "cut\xf0\x9f\x98",
+    "ok\xe2\x82\xac", "ok\xf0\x9f\x98\x80", "del\x7f", "nul\xc2\x80",
     "wwwwwwwwwwwwwwwwwwwwwwwwwwwwwwwwwwwwwwwwwwwwwwwwwwwwwwwwwwwwwwwwwwwwwwwwwwwwwwwwwwwwwwwwwwwwwwwwwwwwwwwwwwwwwwwwwwwwwwwwwwwwwwwwwwwwwwwwwwwwwwwwwwwwwwwwwwwwwwwwwwwwwwwwwwwwwwwwwwwwwwwwwwwwwwwwwwwwwwwwwwwwwwwwwwwwwwwwwwwwwwwwwwwwwwwwwwwwwwwwwwwwwwwwwwwwwwwwwwwwwwwwwwwwwwwwwwwwwwwwwwwwwwwwwwwwwwwwwwwwwwwwwwwwww" };
 #define NHOSTILE ((int)(sizeof(hostile_words) / sizeof(hostile_words[0])))
 static void make_hostile_gram(ctx *c, vh_rng *r, vd_gram *g)
